@@ -214,16 +214,19 @@ def exercise(name, ctor, rng, horizon, seed):
         for i, (s, a) in enumerate(zip(states_seen, actions_seen)):
             k = K[i]
             n_j = comps_j["transition"](s, a, k)
-            res = {"transition": (env.transition(s, a, key=k) if "G1" not in name and "Human" not in name and "Ant" not in name else n_j, n_j, jax.tree.map(lambda x: x[i], vm_tr)),
-                   "observation": (env.observation(s, key=k), comps_j["observation"](s, k), jax.tree.map(lambda x: x[i], vm_ob)),
-                   "reward": (env.reward(s, a, n_j, key=k), comps_j["reward"](s, a, n_j, k), None),
-                   "terminal": (env.terminal(n_j, key=k), comps_j["terminal"](n_j, k), None)}
+            # eager (op-by-op) evaluation is done for the classic-control environments and their wrappers; MuJoCo / G1 physics
+            # is far too slow eagerly (minutes per step) and is compared jit vs vmap only
+            classic = name.split("/")[0].split("(")[0] in ("CartPole", "MountainCar", "ContinuousMountainCar", "Acrobot", "Pendulum")
+            res = {"transition": (env.transition(s, a, key=k) if classic else n_j, n_j, jax.tree.map(lambda x: x[i], vm_tr)),
+                   "observation": (env.observation(s, key=k) if classic else comps_j["observation"](s, k), comps_j["observation"](s, k), jax.tree.map(lambda x: x[i], vm_ob)),
+                   "reward": (env.reward(s, a, n_j, key=k) if classic else comps_j["reward"](s, a, n_j, k), comps_j["reward"](s, a, n_j, k), None),
+                   "terminal": (env.terminal(n_j, key=k) if classic else comps_j["terminal"](n_j, k), comps_j["terminal"](n_j, k), None)}
             for comp, (eager, jit_, vm) in res.items():
-                ok, why = leaves_close(eager, jit_, 2e-4, 2e-5)
+                ok, why = leaves_close(eager, jit_, 2e-4 if classic else 2e-3, 2e-5 if classic else 2e-4)
                 if not ok:
                     out["c12"].append({"what": f"{comp}: eager vs jit differ: {why}", "i": i})
                 if vm is not None:
-                    ok, why = leaves_close(jit_, vm, 2e-4, 2e-5)
+                    ok, why = leaves_close(jit_, vm, 2e-4 if classic else 2e-3, 2e-5 if classic else 2e-4)
                     if not ok:
                         out["c12"].append({"what": f"{comp}: jit vs vmap differ: {why}", "i": i})
     out["c01_rec"] = rec
@@ -242,6 +245,9 @@ def main():
             import traceback
             res.append({"env": name, "c01": [], "c02": [], "c12": [], "steps": 0, "dones": 0, "errors": [f"{type(e).__name__}: {e}"[:500], traceback.format_exc()[-1500:]]})
         print(name, res[-1].get("wall_s"), {k: len(res[-1][k]) for k in ("c01", "c02", "c12", "errors")}, flush=True)
+        import gc
+        jax.clear_caches(); gc.collect()
+        json.dump(res, open(dest + ".partial", "w"))
     json.dump(res, open(dest, "w"))
 
 
